@@ -304,6 +304,19 @@ fn prune_at_with(h: &RepoHandle, secs: i64, no_resize: bool) -> RusticResult<Mar
     Ok(m)
 }
 
+/// the source of "another client": content unrelated to `source(seed, _)`; every file carries other times than any file of
+/// `source(seed, _)` (same paths: the parent-based change detection of `backup` must see that the content differs)
+fn other_source(seed: u64) -> MemSource {
+    let mut s = source(seed ^ 0x5a5a_5a5a, 7, None);
+    for e in &mut s.entries {
+        if matches!(e.kind, repo::SrcKind::File(_)) {
+            e.mtime_s += 100_000;
+            e.ctime_s = e.mtime_s;
+        }
+    }
+    s
+}
+
 /// ids of the index files that list packs marked for deletion
 fn marking_index_files(h: &RepoHandle) -> Vec<rustic_core::Id> {
     all_index(h, &h.be.store()).map(|v| v.into_iter().filter(|(_, f)| !f.packs_to_delete.is_empty()).map(|(id, _)| id).collect()).unwrap_or_default()
@@ -348,7 +361,7 @@ fn scenario_fp(seed: u64, k: usize, fp: Fp, mode: Mode) -> Result<Run, String> {
         _ = prune_at_with(&h, t1, fp.no_resize)?;
         if fp.mid_backup {
             // another client: different content, its own (small) index file and snapshot
-            let src = source(seed ^ 0x5a5a_5a5a, 7, None);
+            let src = other_source(seed);
             let snap = do_backup(&h, &src)?;
             mid_snap = Some((snap, src));
         }
@@ -401,6 +414,15 @@ fn scenario_fp(seed: u64, k: usize, fp: Fp, mode: Mode) -> Result<Run, String> {
             let mut got = repo::read_back(&r, s).map_err(|_| "oracle-fail:snapshot-unreadable-after-followup".to_string())?;
             got.retain(|e| e.path != b"src");
             if got != repo::expected(src) {
+                if std::env::var("C10_DEBUG").is_ok() {
+                    let exp = repo::expected(src);
+                    eprintln!("DIFF snapshot {} of {}: got {} entries, expected {}", s.id, live.len(), got.len(), exp.len());
+                    for (a, b) in got.iter().zip(exp.iter()) {
+                        if a != b {
+                            eprintln!(" got {:?} {} {:?} {:?} {:?}\n exp {:?} {} {:?} {:?} {:?}", String::from_utf8_lossy(&a.path), a.kind, a.content.as_ref().map(Vec::len), a.mode, a.mtime_s, String::from_utf8_lossy(&b.path), b.kind, b.content.as_ref().map(Vec::len), b.mode, b.mtime_s);
+                        }
+                    }
+                }
                 return Err("oracle-fail:snapshot-differs-after-followup".into());
             }
         }
